@@ -31,6 +31,10 @@ pub enum Pert {
     Collide(u16, u16, ScSpec),
     /// replace the whole message by another one
     Fresh(u64),
+    /// (which, idx, k): an algebraically related opening — 0: the whole opening times k, 1: the
+    /// message times k, 2: the blinding factor times k, 3: coordinate idx times k. With k = q-1
+    /// this is the negated opening, whose recomputed commitment is the inverse element.
+    Scale(u8, u16, ScSpec),
 }
 
 #[derive(Clone, Debug, Serialize, Deserialize)]
@@ -57,6 +61,8 @@ fn strategy(_t: Tier) -> impl Strategy<Value = Case> {
         2 => delta_spec().prop_map(Pert::Bf),
         3 => (any::<u16>(), any::<u16>(), delta_spec()).prop_map(|(i, j, d)| Pert::Collide(i, j, d)),
         1 => any::<u64>().prop_map(Pert::Fresh),
+        3 => (0u8..4, any::<u16>(), prop_oneof![3 => Just(ScSpec::MinusOne), 1 => Just(ScSpec::Zero), 1 => Just(ScSpec::Small(2)), 1 => sc_spec()])
+            .prop_map(|(w, i, k)| Pert::Scale(w, i, k)),
     ];
     (
         any::<bool>(),
@@ -197,6 +203,33 @@ fn run_g<G: Grp, const N: usize>(c: &Case, rec: &Rec) -> R {
             }
             pert_label = "fresh-message";
         }
+        Pert::Scale(which, i, k) => {
+            let k = k.get();
+            match which {
+                0 => {
+                    for v in m2.iter_mut() {
+                        *v *= k;
+                    }
+                    r2 *= k;
+                    pert_label = "scaled-opening";
+                }
+                1 => {
+                    for v in m2.iter_mut() {
+                        *v *= k;
+                    }
+                    pert_label = "scaled-message";
+                }
+                2 => {
+                    r2 *= k;
+                    pert_label = "scaled-bf";
+                }
+                _ => {
+                    pert_idx = pick_idx(*i, N);
+                    m2[pert_idx] *= k;
+                    pert_label = "scaled-coord";
+                }
+            }
+        }
         Pert::Collide(i, j, d) => {
             let d = nonzero(d);
             match &logs {
@@ -228,7 +261,7 @@ fn run_g<G: Grp, const N: usize>(c: &Case, rec: &Rec) -> R {
     // expectation by construction
     let by_construction = pert_label.starts_with("collision");
     ensure!(
-        expect_accept == by_construction || matches!(c.mode, GenMode::Repeated(..)),
+        expect_accept == by_construction || matches!(c.mode, GenMode::Repeated(..)) || pert_label.starts_with("scaled"),
         "harness/reference-disagrees-with-construction",
         "reference says accept={} for perturbation {}",
         expect_accept,
@@ -307,8 +340,8 @@ fn oracle(c: &Case, rec: &Rec) -> R {
 pub fn checks() -> Vec<CheckDef> {
     vec![prop_check(
         "pedersen-map",
-        "cases = (group, N in {1,2,3,5,8,13}, generator mode {generated, known logs, repeated generator, explicit random}, message and blinding factor over {0,1,q-1,small,random}, one perturbation {coordinate, blinding factor, constructed collision, fresh message}, second opening for additivity); oracle = independent accumulation h^r*prod g_i^m_i over generators read from the parameter encoding, scalar-only evaluation when logs are known, verify_opening == (recomputed reference commitment equals the given one); non-trivial = N>=2 or an edge entry; distinct by (group, N, mode, perturbation kind and index, message, bf)",
-        &[],
+        "cases = (group, N in {1,2,3,5,8,13}, generator mode {generated, known logs, repeated generator, explicit random}, message and blinding factor over {0,1,q-1,small,random}, one perturbation {coordinate, blinding factor, constructed collision, fresh message, opening scaled by k in {q-1 (negation), 0, 2, any} as a whole / message only / blinding factor only / one coordinate}, second opening for additivity); oracle = independent accumulation h^r*prod g_i^m_i over generators read from the parameter encoding, scalar-only evaluation when logs are known, verify_opening == (recomputed reference commitment equals the given one); non-trivial = N>=2 or an edge entry; distinct by (group, N, mode, perturbation kind and index, message, bf)",
+        &["pert/scaled-opening/must-reject", "pert/scaled-coord/must-reject", "pert/collision-msg-msg/must-accept"],
         (1600, 60_000),
         strategy,
         oracle,
